@@ -16,7 +16,9 @@ EXHAUSTIVE = {"quick": True, "thorough": True}
 RULE = ("the full decision table skipped x rate {0, 1/4, 1/2, float(0.1), 1, 3/2} x forced from {operation, intercepted body, "
         "not} x ignore-forcing x discard {before the force request, after it, not} x outcome {return, raise, interrupt} x draw "
         "{0, rate-eps, rate, rate+eps, 1-eps} with a SCRIPTED random stream (draw == rate is hit exactly), rows grouped into "
-        "histories of three runs on one recorder (a forced run must not leak into the next); the S3 cassette's size-based rule "
+        "histories of three runs on one recorder (a forced run must not leak into the next); the same inputs for rates {0, 1/2, 1} "
+        "with recording switched off as the operation's first step (and on again as its last): a discard / force request "
+        "issued after disable_recording() still counts, the started recording is finalised by the policy; the S3 cassette's size-based rule "
         "over ratio x draw with scripted random, and over histories of 2-3 S3 cassettes with a size-band calculator living in "
         "one process (created one after the other / interleaved / one saving in between; same or other bucket; a twin with "
         "other content in the same size bands), each drawing from the generator it constructed itself: every decision "
@@ -47,10 +49,15 @@ def in_cf(alias="get"):
                 prep_discards=False, run_missing=False, vmiss={"kind": "none"}, fallbacks={"kind": "none"})
 
 
-def row_program(force_from, discard, outcome, variant=0):
+def row_program(force_from, discard, outcome, variant=0, switch="none"):
+    """switch: the service turns recording off while the operation is running (a kill switch, a configuration reload) -
+    "off": disable_recording() as the operation's first step, before any discard / force request; "off-on": the same, and
+    enable_recording() again as its last step.  The recording that was started stays active and is finalised by the policy."""
     term = {"return": {"k": "ret", "e": {"lit": pv.i(variant)}}, "raise": {"k": "raise", "ty": "ValueError"},
             "interrupt": {"k": "interrupt"}}[outcome]
     c = term
+    if switch == "off-on":
+        c = {"k": "enable", "b": True, "next": c}
     if variant:
         c = {"k": "out", "cfg": dict(OUT_CF), "body": {"k": "ret", "e": {"lit": pv.none()}},
              "args": [{"lit": pv.s("x" * variant)}], "kwargs": [], "next": c}
@@ -63,7 +70,24 @@ def row_program(force_from, discard, outcome, variant=0):
              "args": [], "kwargs": [], "next": c}
     if discard == "before":
         c = {"k": "discard", "next": c}
+    if switch != "none":
+        c = {"k": "enable", "b": False, "next": c}
     return c
+
+
+def switched_rows():
+    """the policy inputs again for operations during which recording is switched off (and on again): the decision is the
+    policy's, whatever the global switch does once the recording has started"""
+    for switch in ("off", "off-on"):
+        for rate in ([0, 1], [1, 2], [1, 1]):
+            for force_from in ("none", "op", "body"):
+                for ignore in (False, True):
+                    for discard in ("none", "before", "after"):
+                        for outcome in ("return", "raise", "interrupt"):
+                            r = Fraction(*rate)
+                            for d in (min(r, Fraction(1) - EPS), min(r + EPS, Fraction(1) - EPS)):
+                                yield dict(skipped=False, rate=rate, force_from=force_from, ignore=ignore, discard=discard,
+                                           outcome=outcome, draw=[d.numerator, d.denominator], switch=switch)
 
 
 def rows():
@@ -84,7 +108,8 @@ def row_run(row, variant=0):
     return dict(kind="record", enabled=True, save_fails=False, row=row,
                 prm=dict(rate=row["rate"], ignore=row["ignore"], skipped=row["skipped"], copy=False),
                 op=dict(cls="Op" + ("S" if row["skipped"] else "K"), classlevel=False, extractor={"kind": "none"},
-                        body=row_program(row["force_from"], row["discard"], row["outcome"], variant)))
+                        body=row_program(row["force_from"], row["discard"], row["outcome"], variant,
+                                         row.get("switch", "none"))))
 
 
 def keep_expected(row):
@@ -112,6 +137,11 @@ def generate(rng, tier):
             grp = allrows[k:k + 5]
             keep += [grp[2]] + [grp[rng.choice([0, 1, 3, 4])]]
         allrows = keep
+    sw = list(switched_rows())
+    if tier == "quick":
+        # both draws for the fractional rate, one for rates 0 and 1 (no draw decides there)
+        sw = [r for k, r in enumerate(sw) if r["rate"] == [1, 2] or k % 2 == 0]
+    allrows += sw
     rng.shuffle(allrows)
     cases = []
     for k in range(0, len(allrows), 3):
@@ -285,6 +315,12 @@ def features(case):
                 fs.add("skipped")
             if row["draw"] == row["rate"]:
                 fs.add("draw==rate")
+            if row.get("switch", "none") != "none":
+                fs.add("recording-switched-" + row["switch"] + "-during-the-operation")
+                if row["discard"] != "none":
+                    fs.add("discard-after-recording-was-switched-off")
+                if row["force_from"] != "none":
+                    fs.add("force-after-recording-was-switched-off")
         return fs
     if case["kind"] == "s3hist":
         return c17_s3.features(case)
